@@ -189,6 +189,7 @@ def run(c, prog):
     c.floor(R, n_ok + len([1 for x in seen]), 19, "attribute arms matched")
     rule_spec(c, prog, enc)
     rule_examples(c, prog)
+    rule_field_order(c, prog, enc)
 
 
 def strip_try(t):
@@ -281,3 +282,97 @@ def rule_examples(c, prog, R="C14.spec"):
             else:
                 c.violation(R, f"example|{name}", f"docs/attributes.md, {name}: the example says the value `{vals}` looks like `{hx}`, but those bytes are the f32s {got}; per the section's own field table `{vals}` is `{' '.join(f'{b:02x}' for b in struct.pack('<' + 'f' * len(want), *want))}` (which is also what the codec writes: C14.spec layout) — a blob built from the example does not decode to the value the document says it describes", "docs/attributes.md", instance=inst)
     c.floor(R, n, 3, "all-f32 worked examples in docs/attributes.md")
+
+
+def rule_field_order(c, prog, enc, R="C14.spec"):
+    """which leaf of the value each byte field carries: the order of the document's field tables (a sub-table is expanded
+    where the format names another documented type), and for the CFrame's nine floats the order the worked example
+    shows (R00 R01 R02 R10 … = the rows, the same convention the XML form spells out as R00…R22)"""
+    import struct
+    doc = spec.type_ids("attributes.md")
+    arms = {}
+    for e in enc:
+        if e[0] == "rep":
+            for ev in e[2]:
+                if ev[0] == "alt":
+                    for cond, evs, ex, _ in ev[1]:
+                        if isinstance(cond, tuple) and cond[0] == "is":
+                            arms[vname(cond[2])] = (cond, evs)
+
+    def leaves(evs, base, out):
+        for ev in evs:
+            if ev[0] == "W":
+                t = ev[2]
+                while isinstance(t, tuple) and t and t[0] == "app" and len(t[2]) == 1:
+                    t = t[2][0]        # to_le_bytes(x), casts
+                path = []
+                while isinstance(t, tuple) and t and t[0] == "fld":
+                    path.append(t[2])
+                    t = t[1]
+                out.append(tuple(reversed(path)) if t == base else None)
+            elif ev[0] == "alt":
+                # the long alternative (most fields) is the layout that spells the value out
+                best = max(ev[1], key=lambda b: len([x for x in b[1] if x[0] == "W"]))
+                leaves(best[1], base, out)
+        return out
+
+    def expand(name, prefix, depth=0):
+        if name not in doc or depth > 3:
+            return None
+        ft = None
+        for hdr, rows in spec.md_tables(doc[name][1]):
+            if hdr and hdr[0] == "Field Name" and len(hdr) >= 3:
+                # the component a row stores is named in its Value column (`The `X` component of ..`); the Field Name
+                # column is a label (UDim2 labels its two UDims "X Scale" / "X Offset")
+                ft = []
+                for r_ in rows:
+                    mm = re.search(r"The `(\w+)` component", r_[2]) if len(r_) >= 3 else None
+                    ft.append(((mm.group(1) if mm else r_[0]), re.sub(r"\[|\]\([^)]*\)|`", "", r_[1]).strip()))
+                break
+        if ft is None:
+            return None
+        out = []
+        for fname, fmt in ft:
+            key = fname.lower().replace(" ", "_")
+            sub = expand(fmt, prefix + (key,), depth + 1)
+            out += sub if sub is not None else [prefix + (key,)]
+        return out
+    ALIAS = {"scale": "scale", "offset": "offset", "r": "r", "g": "g", "b": "b"}
+    n = 0
+    for name in ("UDim", "UDim2", "Color3", "Vector2", "Vector3", "NumberRange", "Rect"):
+        if name not in arms or name not in doc:
+            continue
+        cond, evs = arms[name]
+        base = payload(cond[1], cond[2], 0)
+        got = leaves(evs, base, [])
+        want = expand(name, ())
+        if want is None:
+            continue
+        n += 1
+        inst = f"order:{name}"
+        if None not in got and [tuple(q.lower() for q in g_) for g_ in got] == want:
+            c.ok(R, inst)
+        else:
+            c.violation(R, f"order|{name}", f"docs/attributes.md lists the fields of {name} as {['.'.join(w_) for w_ in want]}; the writer emits {['.'.join(g_) if g_ else '?' for g_ in got]} in that order", "rbx_types/src/attributes/writer.rs", instance=inst)
+    # CFrame: position, id, then the matrix as the worked example shows it
+    if "CFrame" in arms and "CFrame" in doc:
+        m = re.search(r"CFrame\.Angles\(0, 45, 0\)` looks like this when serialized: `([0-9a-fA-F ]+)`", doc["CFrame"][1])
+        if not m:
+            raise core.AnchorMissing("docs/attributes.md: the long-form CFrame example is gone")
+        raw = bytes.fromhex(m.group(1).replace(" ", ""))
+        if len(raw) != 12 + 1 + 36:
+            raise core.AnchorMissing("docs/attributes.md: the long-form CFrame example is not 49 bytes")
+        mat = struct.unpack("<9f", raw[13:])
+        # a rotation about Y: rows (c,0,s),(0,1,0),(-s,0,c).  Row-major shows +s third and -s seventh
+        if not (mat[2] > 0.5 and mat[6] < -0.5 and abs(mat[4] - 1.0) < 1e-6):
+            raise core.AnchorMissing(f"docs/attributes.md: the CFrame example no longer shows a rotation about Y row by row ({mat})")
+        cond, evs = arms["CFrame"]
+        base = payload(cond[1], cond[2], 0)
+        got = leaves(evs, base, [])
+        want = [("position", a) for a in "xyz"] + [None] + [("orientation", r_, c_) for r_ in "xyz" for c_ in "xyz"]
+        n += 1
+        if got == want:
+            c.ok(R, "order:CFrame")
+        else:
+            c.violation(R, "order|CFrame", f"docs/attributes.md (worked example: a rotation about Y is stored c 0 s 0 1 0 -s 0 c) stores the rotation row by row — R00 R01 R02 R10 …, as the XML form names them; the writer emits {['.'.join(g_) if g_ else 'id' for g_ in got]}: a blob built from the document decodes to the inverse rotation", "rbx_types/src/attributes/writer.rs", instance="order:CFrame")
+    c.floor(R, n, 6, "attribute types whose leaf order is compared with the document")
